@@ -881,7 +881,29 @@ def devirtualize_fn_values(doc):
             if t['k'] != 'call' or t['func'].get('def') not in ('std::ops::Fn::call', 'std::ops::FnMut::call_mut', 'std::ops::FnOnce::call_once') or len(t['args']) != 2:
                 continue
             path = fn_item(t['args'][0])
-            if path is None or path not in by_path:
+            if path is None:
+                continue
+            if path not in by_path:
+                # a tuple-variant constructor used as a function value (`push_partial(idx, Layer::ReLU)` .. `activation(idx)`): calling it
+                # builds that variant from the arguments
+                adts = {a['path']: a for a in doc.get('adts', [])}
+                enum_path, _, vname = path.rpartition('::')
+                adt = adts.get(enum_path)
+                tup = t['args'][1]
+                ops = None
+                if tup.get('k') in ('copy', 'move') and not tup['place']['proj']:
+                    d = defs.get(tup['place']['local'], [])
+                    if len(d) == 1 and d[0] is not None and d[0]['k'] == 'agg' and d[0]['agg']['k'] == 'tuple':
+                        ops = d[0]['ops']
+                if adt is not None and adt.get('kind') == 'Enum' and ops is not None and t.get('target') is not None:
+                    names = [v['name'] for v in adt['variants']]
+                    if vname in names and len(adt['variants'][names.index(vname)]['fields']) == len(ops):
+                        vi = names.index(vname)
+                        rv = {'k': 'agg', 'agg': {'k': 'adt', 'path': enum_path, 'variant': vname, 'variant_idx': vi,
+                                                  'fields': [f_['name'] for f_ in adt['variants'][vi]['fields']]}, 'ops': list(ops)}
+                        blk['stmts'].append({'k': 'assign', 'place': t['dest'], 'rv': rv, 'span': t['span'], 'exp': t.get('exp', False)})
+                        blk['term'] = {'k': 'goto', 'target': t['target'], 'span': t['span'], 'exp': True}
+                        n += 1
                 continue
             tup = t['args'][1]
             ops = None
